@@ -4,6 +4,10 @@ Correspondence (same questions to the hooked implementation and to the Lean mode
   blame.parse   real `parse_git_blame_line`            vs  `Blame.parseBlame`
   blame.meta    real `format_blame_metadata`           vs  `Blame.formatMeta`
   blame.number  real `format_blame_line_number`        vs  `Blame.fmtLineNumber`
+  blame.format_data / linenum.parse_format
+                real `parse_line_number_format` + `make_placeholder_regex`  vs  `Blame.PF.parseBlameFormat` /
+                `Blame.PF.parseFormat` (format strings generated over the whole placeholder grammar
+                `{label[:[[fill]align][width][.precision][[_]type]]}` and near-grammar mutations of them)
   blame.stream  real `StateMachine::handle_blame_line` vs  `Blame.stream` / `Blame.run`
                 (exhaustive key histories <= 6 lines over 3 keys x palettes of 2 and 3 colours,
                  random longer ones, lines coloured by git mixed in)
@@ -15,7 +19,12 @@ background colour and visible text of every output row of the real binary (and o
 stream): one row per line, in order; code, number, commit, author and time intact; metadata
 blanked only when the line above has the same attribution; same attribution as the line above
 => same colour; different attribution => different colour; a reappearing attribution keeps its
-last colour unless that is the colour of the line above.
+last colour unless that is the colour of the line above. For format strings generated from their
+meaning (part "format" and the `fmt-*` binary classes) additionally: the implementation reads the
+format string as it was written (`format-round-trip`), and the metadata of a row is the literal
+text and the fields laid out as the specs say (`metadata-as-specified`, an independent Python
+reading of the std::fmt subset: truncate to the precision, pad to the width on the side(s) the
+alignment names).
 """
 import itertools
 import os
@@ -212,6 +221,155 @@ def fmt_placeholders(fmt):
     return out
 
 
+# ---- format strings over the whole placeholder grammar of src/format.rs (make_placeholder_regex):
+#      {label[:[[fill]align][width][.precision][[_]type]]}, every part optional and independent.
+PH_NAMES = ["timestamp", "author", "commit"]
+FMT_FILLS = ["*", "0", " ", "x", "_", "é", "日", "}", "{", ":", ".", "-", "7"]
+FMT_TYPES = ["block", "x", "every-3", "Z9_-", "s", "n"]
+FMT_LITS = ["", " ", " ", " ", "  ", " | ", "-", "[", "]", ":", "{", "}", "{x}", "{{", "}}", " {} ", "é", "日 ", "@ ",
+            "<", ">", "^", "(", ")", "{n}", "{:>4}", ". ", "_", "{nm:^4}", " {ts} "]
+FMT_WIDTHS = [0, 1, 4, 7, 8, 12, 15, 20, 30, 45]
+FMT_PRECS = [0, 1, 3, 7, 8, 10, 14, 40]
+FMT_SHAPES = ("bare", "width-only", "precision-only", "width.precision", "align-only")
+
+
+def gen_spec(rng, name, shape=None):
+    """One placeholder, from its meaning. shape: which of width / precision are present."""
+    shape = shape or rng.choice(FMT_SHAPES)
+    sp = dict(name=name, fill=None, align=None, width=None, prec=None, under=False, type=None)
+    if shape in ("width-only", "width.precision"):
+        sp["width"] = rng.choice(FMT_WIDTHS)
+    if shape in ("precision-only", "width.precision"):
+        # the commit abbreviated to fewer than 2 characters no longer tells the generated commits apart
+        sp["prec"] = rng.choice([p for p in FMT_PRECS if p >= 2] if name == "commit" else FMT_PRECS)
+    if shape == "align-only" or (shape != "bare" and rng.random() < 0.6):
+        sp["align"] = rng.choice("<^>")
+        if rng.random() < 0.35:
+            sp["fill"] = rng.choice(FMT_FILLS)
+    if shape != "bare" and rng.random() < 0.25:
+        sp["type"] = rng.choice(FMT_TYPES)
+        sp["under"] = rng.random() < 0.6
+    if shape == "bare" and rng.random() < 0.15:          # {commit:_block}: a type and nothing else
+        sp["type"] = rng.choice(FMT_TYPES)
+        sp["under"] = rng.random() < 0.6
+    return sp
+
+
+def spec_shape(sp):
+    if sp["width"] is not None and sp["prec"] is not None:
+        return "width.precision"
+    if sp["prec"] is not None:
+        return "precision-only"
+    if sp["width"] is not None:
+        return "width-only"
+    if sp["align"] is not None:
+        return "align-only"
+    return "type-only" if sp["type"] else "bare"
+
+
+def spec_text(sp):
+    body = ""
+    if sp["align"]:
+        body += (sp["fill"] or "") + sp["align"]
+    if sp["width"] is not None:
+        body += str(sp["width"])
+    if sp["prec"] is not None:
+        body += "." + str(sp["prec"])
+    if sp["type"]:
+        body += ("_" if sp["under"] else "") + sp["type"]
+    return "{" + sp["name"] + (":" + body if body else "") + "}"
+
+
+def fmt_text(g):
+    return "".join(lit + spec_text(sp) for lit, sp in g["pieces"]) + g["tail"]
+
+
+def gen_format(rng, names=PH_NAMES, need="commit", force_shape=None):
+    """A format string written from its meaning: [(literal, spec)] + tail. `need`: a label that must occur."""
+    k = rng.choice([1, 2, 2, 3, 3, 4])
+    labs = [rng.choice(names) for _ in range(k)]
+    if need and need not in labs:
+        labs[rng.randrange(k)] = need
+    pieces = []
+    lits = [l for l in FMT_LITS if not any("{" + n in l for n in names)]
+    for i, nm in enumerate(labs):
+        lit = rng.choice(lits)
+        if i == 0 and lit.startswith("-"):
+            lit = ""
+        pieces.append((lit, gen_spec(rng, nm, force_shape if (force_shape and nm == (need or nm)) else None)))
+    g = dict(pieces=pieces, tail=rng.choice(lits + ["", "", " "]))
+    g["text"] = fmt_text(g)
+    return g
+
+
+FMT_PRIORITY = ["precision-only", "width.precision", "type-only", "align-only", "width-only", "bare"]
+
+
+def fmt_class(g, name=None):
+    """Input class of a generated format: the shape of the `name` placeholder(s), else of the whole format."""
+    shapes = {spec_shape(sp) for _, sp in g["pieces"] if name is None or sp["name"] == name}
+    for s_ in FMT_PRIORITY:
+        if s_ in shapes:
+            return "fmt-" + s_
+    return "fmt-bare"
+
+
+def pad_field(s, width, align, prec):
+    """std::fmt for a string: at most `prec` chars, padded with blanks to `width` chars."""
+    t = s if prec is None else s[:prec]
+    n = max(0, width - len(t))
+    if align == ">":
+        return " " * n + t
+    if align == "^":
+        return " " * (n // 2) + t + " " * (n - n // 2)
+    return t + " " * n
+
+
+def field_of(sp, a):
+    return dict(commit=a.commit, author=a.author, timestamp=a.ts)[sp["name"]]
+
+
+def expected_meta(g, a, widths):
+    """The metadata column as the format string says (delta's documented defaults: width 15, left; the width
+    counts terminal cells, so chars that are not one cell wide shift it)."""
+    out = ""
+    for lit, sp in g["pieces"]:
+        field = field_of(sp, a)
+        cells = sum(widths.get(ord(c), 1) for c in field)
+        w = max(0, (15 if sp["width"] is None else sp["width"]) + len(field) - cells)
+        out += lit + pad_field(field, w, sp["align"] or "<", sp["prec"])
+    return out + g["tail"]
+
+
+def want_items(g, label_of=lambda n: n):
+    """What parse_line_number_format has to return for fmt_text(g): canonical item tuples
+    (prefix, label, align, width, precision, type, suffix)."""
+    out = []
+    rest = [lit + spec_text(sp) for lit, sp in g["pieces"]]
+    for i, (lit, sp) in enumerate(g["pieces"]):
+        suffix = "".join(rest[i + 1:]) + g["tail"]
+        out.append((lit, label_of(sp["name"]), sp["align"], sp["width"], sp["prec"], sp["type"] or "", suffix))
+    return out
+
+
+def mutate_format(rng, text):
+    """Near-grammar strings: one or two character edits of a well-formed format."""
+    alphabet = "{}:<^>._-0123456789abnmpt*日 "
+    t = text
+    for _ in range(rng.choice([1, 1, 2])):
+        r = rng.random()
+        if t and r < 0.4:
+            i = rng.randrange(len(t))
+            t = t[:i] + t[i + 1:]
+        elif r < 0.8:
+            i = rng.randrange(len(t) + 1)
+            t = t[:i] + rng.choice(alphabet) + t[i:]
+        elif t:
+            i = rng.randrange(len(t))
+            t = t[:i] + rng.choice(alphabet) + t[i + 1:]
+    return t
+
+
 def cfg_args(pal, fmt, sep, tab=None, extra=()):
     a = ["--blame-timestamp-output-format", FIXED_TS]
     if pal is not None:
@@ -264,7 +422,8 @@ def check_rows(items, rows, conf, distinct_palette=True):
     if len(rows) != len(items):
         bad.append(("one-row-per-line", min(len(rows), len(items)), "rows=%d lines=%d" % (len(rows), len(items))))
     fmt, (sepf, spre, ssuf, skind, severy, shasnum), tab = conf["fmt"], conf["sep"], conf["tab"]
-    phs = fmt_placeholders(fmt)
+    g = conf.get("gfmt")       # a format generated from its meaning: the oracle knows what it says without parsing it
+    phs = [(sp["name"], sp["prec"]) for _, sp in g["pieces"]] if g else fmt_placeholders(fmt)
     colours = []
     last_colour = {}
     for i, it in enumerate(items):
@@ -320,6 +479,10 @@ def check_rows(items, rows, conf, distinct_palette=True):
                     w = want[name] if prec is None else want[name][:prec]
                     if w not in meta:
                         bad.append(("attribution-" + name, i, dict(row=text, want=w, meta=meta)))
+                if g and not it.get("git"):
+                    em = expected_meta(g, a, conf.get("widths") or {})
+                    if meta != em:
+                        bad.append(("metadata-as-specified", i, dict(row=text, want=em, meta=meta)))
         # --- colour of the row: background of the metadata column (all of head, and the code)
         c = hbg[0] if hbg else (bgs[0] if bgs else None)
         if it.get("git"):
@@ -355,7 +518,7 @@ def cw_field(widths):
 
 def pool_texts():
     return AUTHORS_CLEAN + AUTHORS_ACCENT + AUTHORS_WIDE + AUTHORS_ONE + CODE_WORDS + [f for f in FILES if f] + [BAR] + \
-        [f for f in BLAME_FORMATS if f] + [s[0] for s in SEP_FORMATS if s[0]]
+        [f for f in BLAME_FORMATS if f] + [s[0] for s in SEP_FORMATS if s[0]] + FMT_FILLS + FMT_LITS
 
 
 def cfg_data(hook):
@@ -699,7 +862,7 @@ def gen_binary_case(rng, cls):
         attrs[rng.randrange(k)].author = rng.choice(AUTHORS_WIDE)
     if cls == "one-char-author":
         attrs[rng.randrange(k)].author = rng.choice(AUTHORS_ONE)
-    L = rng.randint(1, 60) if cls == "clean" else rng.randint(2, 12)
+    L = rng.randint(1, 60) if cls == "clean" else (rng.randint(2, 24) if cls == "fmt-grammar" else rng.randint(2, 12))
     hist = []
     while len(hist) < L:
         hist += [rng.randrange(k)] * rng.choice([1, 1, 2, 3, 6])
@@ -724,7 +887,12 @@ def gen_binary_case(rng, cls):
     pal = rng.choice([None, rng.sample(PALETTE_POOL, npal), rng.sample(PALETTE_POOL, npal)])
     fmt = rng.choice(BLAME_FORMATS)
     sep = rng.choice(SEP_FORMATS)
-    return dict(cls=cls, attrs=attrs, items=items, pal=pal, fmt=fmt, sep=sep, tab=tab,
+    gfmt = None
+    if cls == "fmt-grammar":
+        # the blame format is generated over the whole placeholder grammar (always with a {commit} placeholder)
+        gfmt = gen_format(rng, force_shape=rng.choice(FMT_SHAPES))
+        fmt = gfmt["text"]
+    return dict(cls=cls, attrs=attrs, items=items, pal=pal, fmt=fmt, sep=sep, tab=tab, gfmt=gfmt,
                 via=rng.choice(["stub-git", "stdin"]), pads=[(rng.choice([1, 1, 2, 6]), rng.choice([1, 2, 3])) for _ in items])
 
 
@@ -765,13 +933,16 @@ def decode_output(out):
 def eval_binary(ctx, rep, case, res, mdl_resp=None, model_checked=None):
     rc, out, err, args, lines = res
     cls = classify(case["items"])
+    g = case.get("gfmt")
+    if g:
+        cls = fmt_class(g) if cls == "clean" else cls + "+" + fmt_class(g)
     tab = 8 if case["tab"] is None else case["tab"]
     replay = dict(kind="binary", args=args, via=case["via"], stdin_b64=b64(("\n".join(lines) + "\n").encode()),
                   lines=lines, cls=cls,
                   spec=dict(items=[dict(commit=it["attr"].commit, author=it["attr"].author, ts=it["attr"].ts,
                                         file=it["attr"].file, n=it["n"], code=it["code"], git=it["git"]) for it in case["items"]],
                             pal=case["pal"], fmt=case["fmt"], sep=SEP_FORMATS.index(case["sep"]), tab=case["tab"],
-                            pads=case["pads"]))
+                            pads=case["pads"], gfmt=g))
     rep.case(key=("binary", tuple(args), tuple(lines), case["via"]),
              nontrivial=len({it["attr"].tup() for it in case["items"]}) >= 2 and len(lines) >= 3,
              sample=dict(op="binary", args=args, via=case["via"], lines=lines[:4], rc=rc, out=out[:200].decode("utf-8", "replace")))
@@ -800,9 +971,13 @@ def eval_binary(ctx, rep, case, res, mdl_resp=None, model_checked=None):
     for it, l in zip(case["items"], lines):
         it["raw"] = strip_sgr(l)
     distinct = True   # every palette used here has pairwise distinct colours
-    bad = check_rows(case["items"], rows, dict(fmt=case["fmt"], sep=case["sep"], tab=tab), distinct)
+    bad = check_rows(case["items"], rows, dict(fmt=case["fmt"], sep=case["sep"], tab=tab, gfmt=g,
+                                               widths=getattr(ctx, "c17_widths", {})), distinct)
     for rule, i, detail in bad[:8]:
-        rep.violation("%s:%s" % (rule, cls), "blame output row %d breaks rule '%s'" % (i, rule),
+        c2 = cls
+        if g and rule.startswith("attribution-"):     # name the shape of the placeholder that is not shown
+            c2 = fmt_class(g, rule.split("-", 1)[1])
+        rep.violation("%s:%s" % (rule, c2), "blame output row %d breaks rule '%s'" % (i, rule),
                       dict(replay, rule=rule, row_index=i, detail=detail))
     return rows
 
@@ -812,16 +987,27 @@ def part_binary(ctx, rep, hook, mdl, widths, cdata):
     rng = ctx.rng
     cases = []
     plan = [("clean", ctx.n(420, 12000)), ("wide-author", ctx.n(25, 300)), ("one-char-author", ctx.n(25, 300)),
-            ("lookalike-code", ctx.n(25, 300)), ("git-coloured", ctx.n(25, 300))]
+            ("lookalike-code", ctx.n(25, 300)), ("git-coloured", ctx.n(25, 300)),
+            ("fmt-grammar", ctx.n(160, 4000))]
     for cls, n in plan:
         for _ in range(n):
             cases.append(gen_binary_case(rng, cls))
     with tempfile.TemporaryDirectory(prefix="c17-", dir=BUILD) as tmp:
-        results = parallel_map(lambda ic: run_binary_case(ctx, ic[1], tmp, ic[0]), list(enumerate(cases)))
+        results = parallel_map(lambda ic: run_binary_case(ctx, ic[1], tmp, ic[0]), list(enumerate(cases)),
+                               workers=int(os.environ.get("VERIF_WORKERS", "0")) or None)
     # model side: the same streams through Blame.stream, configuration data from the implementation
+    # formats generated from the grammar: the model reads the format string itself (PF.parseBlameFormat)
+    gtexts = sorted({c["fmt"] for c in cases if c.get("gfmt")})
+    gitems = {}
+    if mdl and gtexts:
+        for t_, r_ in zip(gtexts, mdl.ask(["blame.format_data " + hx(t_) for t_ in gtexts])):
+            gitems[t_] = " ".join(r_.split()[1:]) if r_.startswith("ok ") else None
     reqs = []
     for c in cases:
-        items_f, sep_f = cdata[(c["fmt"], c["sep"][0])]
+        if c.get("gfmt"):
+            items_f, sep_f = gitems.get(c["fmt"]) or "0", cdata[(None, c["sep"][0])][1]
+        else:
+            items_f, sep_f = cdata[(c["fmt"], c["sep"][0])]
         mpal = list(c["pal"]) if c["pal"] else ["#000000", "#222222", "#444444"]   # dark default (no terminal to query)
         reqs.append(model_stream_req(mpal, items_f, sep_f, 8 if c["tab"] is None else c["tab"], widths,
                                      [(strip_sgr(l), it["git"]) for l, it in zip(case_lines(c), c["items"])]))
@@ -859,12 +1045,165 @@ def part_binary(ctx, rep, hook, mdl, widths, cdata):
                            impl=[r[0] for r in rows][:40]))
 
 
+# ------------------------------------------------------------------ part E: the format string grammar
+
+ALIGN_OF = {"-": None, "0": "<", "1": "^", "2": ">", "l": "<", "c": "^", "r": ">"}
+FORMAT_SPECIALS = ["", "{}", "{nm", "nm}", "{nm:}", "{nm:}<}", "{nm:}<4}", "{nm:.}", "{nm:_}", "{nm:<}", "{nm:x<}", "{nm:<<}",
+                   "{nm:^^4}", "{{nm}}", "{nm:4.}", "{nm:.4.4}", "{nm:4_}", "{nm:4__a}", "{nm:-a}", "{nm:a b}", "{nm:4a-_9}",
+                   "{nm:\u0663}", "{np:\uff10}", "{nm:1\u0661}", "{nm:.\u0967}", "{nm:99999999999999999999}",
+                   "{nm:.99999999999999999999}", "{nm:18446744073709551615}", "{nm:18446744073709551616}", "{nm:007.003}",
+                   "{nm:{<4}", "{nm::<4}", "{nm:\n<4}", "{np}{nm}", "{nm}{nm:>3}x", "{nmx}", "{n}", "{nm :4}", "{nm:4 }", "{NM}"]
+
+
+def opt_int(f):
+    return None if f == "-" else int(f)
+
+
+def canon_linenum(resp):
+    """`linenum.parse_format` answer -> [(prefix, label, align, width, precision, type, suffix)] | 'PANIC' | None."""
+    if is_panic(resp):
+        return "PANIC"
+    f = resp.split()
+    if not f or f[0] != "ok":
+        return None
+    out, j = [], 2
+    for _ in range(int(f[1])):
+        pre, _plen, ph, al, w, pr, ty, suf, _slen = f[j:j + 9]
+        j += 9
+        out.append((unx(pre), {"0": None, "1": "nm", "2": "np"}.get(ph, "?"), ALIGN_OF[al], opt_int(w), opt_int(pr),
+                    unx(ty), unx(suf)))
+    return out
+
+
+def canon_model_format(resp):
+    """`blame.parse_format` answer of the model driver, same canonical form."""
+    if is_panic(resp):
+        return "PANIC"
+    f = resp.split()
+    if not f or f[0] != "ok":
+        return None
+    out, j = [], 2
+    for _ in range(int(f[1])):
+        pre, lab, al, w, pr, ty, suf = f[j:j + 7]
+        j += 7
+        out.append((unx(pre), None if lab == "-" else unx(lab), ALIGN_OF[al], opt_int(w), opt_int(pr), unx(ty), unx(suf)))
+    return out
+
+
+def canon_format_data(resp):
+    """`blame.format_data` answer (implementation or model) -> [(prefix, t|a|c|None, align, width, precision, suffix)]."""
+    if is_panic(resp):
+        return "PANIC"
+    f = resp.split()
+    if not f or f[0] != "ok":
+        return None
+    out = []
+    for it in f[2:]:
+        pre, ph, al, w, pr, suf = it.split(",")
+        out.append((unx(pre), None if ph == "-" else ph, ALIGN_OF[al], opt_int(w), opt_int(pr), unx(suf)))
+    return out
+
+
+def part_format(ctx, rep, hook, mdl, widths, cdata):
+    """`parse_line_number_format` + `make_placeholder_regex` on format strings generated over the whole grammar
+    (direct oracle: the string is read as it was written; correspondence with `PF.parseFormat`), then whole
+    `--blame-format` values through the real Config: parsed items, and the metadata of blame lines."""
+    rng = ctx.rng
+    # ---- A. the regex itself (labels nm|np: the hook op takes the format string as an argument, no Config needed)
+    gens = []
+    for i in range(ctx.n(600, 8000)):
+        gens.append(gen_format(rng, names=["nm", "np"], need=None, force_shape=FMT_SHAPES[i % len(FMT_SHAPES)] if i % 2 else None))
+    texts = [g["text"] for g in gens]
+    muts = [mutate_format(rng, rng.choice(texts)) for _ in range(ctx.n(600, 8000))] + FORMAT_SPECIALS
+    allt = texts + muts
+    impl = hook.ask([cfg_line([])] + ["linenum.parse_format %s 0" % hx(t) for t in allt], sticky=[0])[1:]
+    model = mdl.ask(["blame.parse_format linenum " + hx(t) for t in allt]) if mdl else [None] * len(allt)
+    for n, (t, i, m) in enumerate(zip(allt, impl, model)):
+        ci = canon_linenum(i)
+        g = gens[n] if n < len(gens) else None
+        rep.case(key=("format", t), nontrivial=isinstance(ci, list) and any(x[1] for x in ci),
+                 sample=dict(op="linenum.parse_format", fmt=t, impl=i[:300]))
+        rep.count("format:" + ("generated:" + fmt_class(g)[4:] if g else "near-grammar") +
+                  (":died" if ci == "PANIC" else ""))
+        if m is not None:
+            rep.corr_case("linenum.parse_format", ci is not None and ci == canon_model_format(m),
+                          dict(op="linenum.parse_format", fmt=t, impl=i, model=m))
+        if g is not None:
+            want = want_items(g)
+            if ci != want:
+                bad_sp = [sp for (_, sp), w_ in zip(g["pieces"], want) if not isinstance(ci, list) or w_ not in ci]
+                cls = spec_shape(bad_sp[0]) if bad_sp else fmt_class(g)[4:]
+                rep.violation("format-round-trip:" + cls,
+                              "parse_line_number_format does not read a format string as it is written "
+                              "({label[:[[fill]align][width][.precision][[_]type]]})",
+                              dict(kind="format", labels="linenum", fmt=t, req="linenum.parse_format %s 0" % hx(t),
+                                   want=[list(w_) for w_ in want], got=i, gfmt=g))
+    # ---- B. --blame-format through the Config: parsed items and metadata
+    authors = AUTHORS_CLEAN + AUTHORS_ACCENT + AUTHORS_WIDE
+    nfmt = ctx.n(40, 400)
+    gens = [gen_format(rng, force_shape=FMT_SHAPES[i % len(FMT_SHAPES)]) for i in range(nfmt)]
+    groups, meta_ = [], []
+    for g in gens:
+        args = cfg_args(None, g["text"], None)
+        attrs = [Attr(gen_commit(rng), rng.choice(authors), gen_ts(rng)) for _ in range(ctx.n(4, 12))]
+        lines = [blame_line(a, rng.randint(1, 500), " x") for a in attrs]
+        groups.append((args, ["blame.format_data"] + ["blame.meta " + hx(l) for l in lines]))
+        meta_.append((g, args, attrs, lines))
+    resp = batched(hook, groups)
+    mfd = mdl.ask(["blame.format_data " + hx(g["text"]) for g in gens]) if mdl else [None] * len(gens)
+    cwf = cw_field(widths)
+    mreqs, keep = [], []
+    for (g, args, attrs, lines), r, md in zip(meta_, resp, mfd):
+        cls = fmt_class(g)
+        fd = canon_format_data(r[0])
+        rep.case(key=("blame-format", g["text"]), nontrivial=True, sample=dict(op="blame.format_data", fmt=g["text"], impl=r[0][:300]))
+        rep.count("blame-format:" + cls[4:])
+        if md is not None:
+            rep.corr_case("blame.format_data", fd is not None and fd == canon_format_data(md),
+                          dict(op="blame.format_data", cfg=args, fmt=g["text"], impl=r[0], model=md))
+        want = [(pre, lab[0], al, w, pr, suf) for pre, lab, al, w, pr, _ty, suf in want_items(g)]
+        if fd != want:
+            bad_sp = [sp for (_, sp), w_ in zip(g["pieces"], want) if not isinstance(fd, list) or w_ not in fd]
+            rep.violation("hook:format-round-trip:" + (spec_shape(bad_sp[0]) if bad_sp else cls[4:]),
+                          "--blame-format is not read as it is written",
+                          dict(kind="hook", cfg=args, req="blame.format_data", fmt=g["text"], want=[list(w_) for w_ in want],
+                               got=r[0], gfmt=g))
+        for a, l, i in zip(attrs, lines, r[1:]):
+            rep.case(key=("blame-format-meta", g["text"], l), nontrivial=True, sample=dict(op="blame.meta", fmt=g["text"], line=l, impl=i[:300]))
+            replay = dict(kind="hook", cfg=args, req="blame.meta " + hx(l), line=l, fmt=g["text"], gfmt=g)
+            if is_panic(i) or not i.startswith("ok x"):
+                rep.violation("hook:blame-meta-died:" + cls, "format_blame_metadata fails on a generated format", dict(replay, got=i))
+                continue
+            f = i.split()
+            got = unx(f[1])
+            if md is not None and md.startswith("ok "):
+                mreqs.append("blame.meta %s %s %s %s %s" % (cwf, " ".join(md.split()[1:]), hx(a.ts), hx(a.author), hx(a.commit)))
+                keep.append((args, l, i))
+            for _, sp in g["pieces"]:
+                w = field_of(sp, a) if sp["prec"] is None else field_of(sp, a)[:sp["prec"]]
+                if w not in got:
+                    rep.violation("hook:attribution-%s:fmt-%s" % (sp["name"], spec_shape(sp)),
+                                  "the metadata does not show a field the format asks for", dict(replay, want=w, got=got))
+            em = expected_meta(g, a, widths)
+            if got != em:
+                rep.violation("hook:metadata-as-specified:" + cls, "the metadata is not laid out as the format string says",
+                              dict(replay, want=em, got=got))
+    model = mdl.ask(mreqs) if mdl else []
+    for (args, l, i), m, q in zip(keep, model, mreqs):
+        ic = " ".join(i.split()[:3])
+        rep.corr_case("blame.meta", same_resp(ic, m), dict(op="blame.meta", args=args, line=l, impl=i, model=m, req=q))
+
+
 # ------------------------------------------------------------------ entry points
 
 def run(ctx, rep):
     rep.rule = ("blame lines generated from (commit, author, time, file column, number, code) with boundary commits, renamed-file "
                 "columns, authors with blanks/parentheses/accents/wide chars/one char, many time zones; streams = runs of "
                 "1-6 commits over 1-60 lines; 6 blame formats x 5 separator formats x palettes of 2-5 colours (and the default); "
+                "blame format strings generated over the whole placeholder grammar {label[:[[fill]align][width][.precision][[_]type]]} "
+                "(1-4 placeholders incl. {commit}, every shape bare / align-only / width-only / precision-only / width.precision, "
+                "fills incl. braces and digits, types, literal text with braces between) through the binary, the Config and the "
+                "parser; near-grammar mutations of them through the parser; "
                 "non-trivial = stream with >= 2 attributions and >= 3 lines (binary), >= 2 lines (hook), a line the regex matches (parse); "
                 "distinct by (configuration, exact input)")
     rep.extra_trusted += ["regex crate (BLAME_LINE_REGEX re-implemented by hand, compared on valid/near-valid/ambiguous lines)",
@@ -885,6 +1224,7 @@ def run(ctx, rep):
         rep.corr_case("blame.default_items", d == v[2], dict(op="blame.default_items", impl=d, model=v[2]))
     import time
     widths = char_widths(hook, pool_texts())
+    ctx.c17_widths = widths
     cdata = cfg_data(hook)
     seen = {}
     orig = rep.violation
@@ -898,7 +1238,7 @@ def run(ctx, rep):
         return orig(signature, what, replay)
     rep.violation = violation
     t = {}
-    for name, part in (("parse", part_parse), ("hook", part_hook), ("binary", part_binary)):
+    for name, part in (("parse", part_parse), ("hook", part_hook), ("binary", part_binary), ("format", part_format)):
         t0 = time.time()
         part(ctx, rep, hook, mdl, widths, cdata)
         t[name] = round(time.time() - t0, 1)
@@ -917,8 +1257,13 @@ def replay(ctx, rep, obj):
             a = attrs.setdefault((it["commit"], it["author"], it["ts"], it["file"]),
                                  Attr(it["commit"], it["author"], it["ts"], it["file"]))
             items.append(dict(attr=a, n=it["n"], code=it["code"], git=it["git"]))
+        g = sp.get("gfmt")
+        if g:
+            g = dict(g, pieces=[(lit, spc) for lit, spc in g["pieces"]])
+            ctx.c17_widths = char_widths(ctx.hook({"DELTA_VERIF_HOOK_CALLER": "git blame f.txt"}),
+                                         [it["author"] for it in sp["items"]])
         c = dict(cls=case.get("cls"), items=items, pal=sp["pal"], fmt=sp["fmt"], sep=SEP_FORMATS[sp["sep"]], tab=sp["tab"],
-                 via=case.get("via", "stdin"), pads=[tuple(x) for x in sp["pads"]])
+                 via=case.get("via", "stdin"), pads=[tuple(x) for x in sp["pads"]], gfmt=g)
         res = run_binary_case(ctx, c, BUILD, 999999)
         print("rc", res[0])
         print(res[1].decode("utf-8", "replace"))
@@ -943,7 +1288,7 @@ def replay(ctx, rep, obj):
         if rc != 0 or "panicked" in errt:
             rep.violation(case.get("signature", obj.get("signature", "replay")), "replayed failure reproduces", case)
         rep.case(key=("replay", obj.get("signature")), nontrivial=True, sample=dict(rc=rc))
-    elif kind in ("hook", "parse"):
+    elif kind in ("hook", "parse", "format"):
         hook = ctx.hook({"DELTA_VERIF_HOOK_CALLER": "git blame f.txt"})
         req = case.get("req") or ("blame.parse " + hx(case["line"]))
         resp = hook.ask([cfg_line(case.get("cfg", [])), req], sticky=[0])
@@ -951,5 +1296,19 @@ def replay(ctx, rep, obj):
         rep.case(key=("replay", req), nontrivial=True, sample=dict(resp=resp[1]))
         if is_panic(resp[1]):
             rep.violation(obj.get("signature", "replay"), "replayed failure reproduces", case)
+        elif kind == "format" and case.get("want") is not None:
+            got = canon_linenum(resp[1])
+            if got != [tuple(w_) for w_ in case["want"]]:
+                print("want", case["want"])
+                rep.violation(obj.get("signature", "replay"), "replayed failure reproduces", case)
+        elif req == "blame.format_data" and case.get("want") is not None:
+            if canon_format_data(resp[1]) != [tuple(w_) for w_ in case["want"]]:
+                print("want", case["want"])
+                rep.violation(obj.get("signature", "replay"), "replayed failure reproduces", case)
+        elif req.startswith("blame.meta ") and case.get("want") is not None and resp[1].startswith("ok x"):
+            got = unx(resp[1].split()[1])
+            if (case["want"] not in got) if "attribution" in obj.get("signature", "") else (got != case["want"]):
+                print("want", repr(case["want"]))
+                rep.violation(obj.get("signature", "replay"), "replayed failure reproduces", case)
     else:
         run(ctx, rep)
